@@ -585,8 +585,16 @@ def run_engine(factory_mod, factory_name, tier="quick", jobs=16, max_rounds=40, 
         npaths = sum(r["paths"] for r in results)
         log(f"[{eng.name}] round {rounds}: paths={npaths} removed={removed} entry_clauses={len(inv['entry'])} "
             f"cuts={len(inv)} ({time.time()-t1:.1f}s)")
-        if getattr(eng, "cache_file", None) and infer:
+        if getattr(eng, "cache_file", None) and (infer or os.environ.get("VERIF_SAVE_PARTIAL")):
             save_inv(eng.cache_file + ".partial", inv, {"rounds": rounds, "inductive": removed == 0})
+        if os.environ.get("VERIF_DEBUG_ENTRIES"):
+            per = {}
+            for r in results:
+                e = per.setdefault(r["entry"], [0, 0.0, 0])
+                e[0] += r["paths"]
+                e[1] += r["wall"]
+                e[2] += sum(len(v) for v in r["violated"].values())
+            log("    per entry (paths, cpu s, violated): " + ", ".join(f"{k}:{v[0]}/{v[1]:.0f}/{v[2]}" for k, v in sorted(per.items(), key=lambda kv: -kv[1][1])[:12]))
         if removed == 0 or rounds >= max_rounds:
             break
     return {"error": None, "results": results, "inv": inv, "rounds": rounds, "universe": len(universe),
